@@ -139,13 +139,21 @@ pub fn tas50(mb: u64) -> u32 {
     mbget(mb, 47, 10) as u32 * 2
 }
 pub fn plausible50(mb: u64) -> bool {
+    plausible50_with(mb, 50.0)
+}
+/// the same with the roll limit applied to the truncated integer (|roll| < 51): the most permissive
+/// reading of "|roll| <= 50", used where a permissive reading makes the oracle more lenient
+pub fn plausible50_lenient(mb: u64) -> bool {
+    plausible50_with(mb, 50.999_999)
+}
+fn plausible50_with(mb: u64, roll_limit: f64) -> bool {
     if !valid50(mb) {
         return false;
     }
     let nonzero = mbget(mb, 3, 9) != 0 && mbget(mb, 14, 10) != 0 && mbget(mb, 25, 10) != 0 && mbget(mb, 37, 9) != 0 && mbget(mb, 47, 10) != 0;
     let roll_exact = signed(mb, 2, 3, 9) as f64 * 45.0 / 256.0;
     let (gs, tas) = (gs50(mb) as i64, tas50(mb) as i64);
-    nonzero && roll_exact.abs() <= 50.0 && gs <= 600 && tas <= 500 && (gs - tas).abs() < 200
+    nonzero && roll_exact.abs() <= roll_limit && gs <= 600 && tas <= 500 && (gs - tas).abs() < 200
 }
 
 // ------------------------------------------------------------------ BDS 6,0
@@ -257,7 +265,7 @@ pub fn expect_mb(pre: &Snap, relaxed: bool, mb: u64) -> MbExp {
     let g60 = relaxed || pre.cap[4];
     if guard40(mb) {
         if g40 {
-            let must = plausible40(mb) && !weak17(mb) && !coded;
+            let must = plausible40(mb) && !strong17(mb) && !coded;
             e.sel_alt = mk(must, sel_alts40(mb));
             e.baro = mk(must, vec![baro40(mb)]);
             e.branch.push(if must { "4,0:must" } else { "4,0:may" });
@@ -265,9 +273,13 @@ pub fn expect_mb(pre: &Snap, relaxed: bool, mb: u64) -> MbExp {
             e.branch.push("gate:4,0-not-advertised");
         }
     }
+    // "satisfies the rules of an earlier register" = that register in the statement's own sense
+    // (every status bit set, every value field non-zero, within the plausible range)
+    let mut must50 = false;
     if valid50(mb) {
         if g50 {
-            let must = plausible50(mb) && !weak17(mb) && !(guard40(mb)) && !coded;
+            let must = plausible50(mb) && !strong17(mb) && !plausible40(mb) && !coded;
+            must50 = must;
             e.roll = mk(must, roll50(mb).into_iter().map(Some).collect());
             e.track = mk(must, vec![Some(track50(mb))]);
             e.tar = mk(must, tar50(mb).into_iter().map(Some).collect());
@@ -279,8 +291,12 @@ pub fn expect_mb(pre: &Snap, relaxed: bool, mb: u64) -> MbExp {
         }
     }
     if valid60(mb) {
-        if g60 {
-            let must = plausible60(mb) && !weak17(mb) && !guard40(mb) && !valid50(mb) && !coded;
+        if must50 {
+            // the reply has to be decoded as BDS 5,0 (earlier in the precedence): it is not also a 6,0
+            e.branch.push("6,0:superseded-by-5,0");
+        } else if g60 {
+            let earlier = strong17(mb) || plausible40(mb) || plausible50_lenient(mb);
+            let must = plausible60(mb) && !earlier && !coded;
             e.heading = mk(must, vec![Some(heading60(mb))]);
             e.ias = mk(must, vec![Some(ias60(mb))]);
             e.mach = mk(must, vec![Some(mach60(mb).to_bits())]);
